@@ -29,6 +29,24 @@ fn units(thorough: bool) -> Vec<Unit> {
         d[n - 1] = d[n - 2];
         out.push(Unit { alpha: order_alphabet(&d), positive: true, nasty: false, ends: d });
     }
+    for n in threshold_sizes(thorough) {
+        if n > 17 {
+            let ends = iota(n);
+            out.push(Unit { alpha: order_alphabet(&ends), positive: true, nasty: false, ends });
+            let mut d = iota(n);
+            for i in (n / 3)..(n / 3 + n / 4) {
+                d[i] = d[n / 3];
+            }
+            d.sort_by(|a, b| a.partial_cmp(b).unwrap());
+            out.push(Unit { alpha: order_alphabet(&d), positive: true, nasty: false, ends: d });
+        }
+    }
+    // magnitudes and nearly equal ends
+    for vals in [vec![-1e6, -1.0, 1e-7, 1e6, 1e7], vec![1.0, 1.0 + 1e-10, 1.0 + 2e-10, 1.0 + 1e-9], vec![1e5, 1e5 * (1.0 + 1e-12), 1e6, 3e6, 1e7]] {
+        for ends in shapes(&vals, 4) {
+            out.push(Unit { alpha: order_alphabet(&ends), positive: false, nasty: false, ends });
+        }
+    }
     for ends in shapes(&nasty_values(), if thorough { 5 } else { 4 }) {
         out.push(Unit { alpha: order_alphabet(&ends), positive: false, nasty: true, ends });
     }
@@ -121,7 +139,7 @@ pub fn check(thorough: bool, _seed: u64) -> Check {
         bounds: json!({
             "shapes": if thorough {"all non-decreasing end lists of length 1..6 over {1..6} and of length 1..5 over the nasty set {-MAX,-1,-2^-1022,-0.0,+0.0,5e-324,1,succ(1),1e300,MAX,+inf}"}
                       else {"all non-decreasing end lists of length 1..5 over {1..5} and of length 1..4 over the nasty set {-MAX,-1,-2^-1022,-0.0,+0.0,5e-324,1,succ(1),1e300,MAX,+inf}"},
-            "long_lists": "1..n for n=6..17 (40 thorough), plain and with duplicate runs in the middle and at the end",
+            "long_lists": "1..n for n=6..17 (40 thorough) and for the threshold sizes (8..257 quick, 7..1025 thorough), plain and with duplicate runs; lists over {-1e6,-1,1e-7,1e6,1e7}, {1,1+1e-10,1+2e-10,1+1e-9}, {1e5,1e5(1+1e-12),1e6,3e6,1e7}",
             "queries": "order-complete alphabet A(ends): -inf,-MAX, below first end, each end and both one-ulp neighbours, >=2 interior points per cell, above last end, MAX, +inf",
             "piece_types": "Probe (identifies piece and argument), Poly1, Poly3, Log<Poly8> (positive ends only)"
         }),
